@@ -145,3 +145,49 @@ func LazyFields(md protoreflect.MessageDescriptor) []protoreflect.FieldNumber {
 	}
 	return out
 }
+
+// HasRequired reports whether a required field is reachable from md.
+func HasRequired(md protoreflect.MessageDescriptor) bool {
+	return hasRequired(md, map[protoreflect.FullName]bool{})
+}
+
+func hasRequired(md protoreflect.MessageDescriptor, seen map[protoreflect.FullName]bool) bool {
+	if seen[md.FullName()] {
+		return false
+	}
+	seen[md.FullName()] = true
+	if md.RequiredNumbers().Len() > 0 {
+		return true
+	}
+	fs := md.Fields()
+	for i := 0; i < fs.Len(); i++ {
+		sub := fs.Get(i).Message()
+		if fs.Get(i).IsMap() {
+			sub = fs.Get(i).MapValue().Message()
+		}
+		if sub != nil && hasRequired(sub, seen) {
+			return true
+		}
+	}
+	// extensions of md with message type
+	found := false
+	protoregistry.GlobalTypes.RangeExtensionsByMessage(md.FullName(), func(xt protoreflect.ExtensionType) bool {
+		if sub := xt.TypeDescriptor().Message(); sub != nil && hasRequired(sub, seen) {
+			found = true
+			return false
+		}
+		return true
+	})
+	return found
+}
+
+// RequiredBearing returns the Standard() types from which a required field is reachable.
+func RequiredBearing() []string {
+	var out []string
+	for _, n := range Standard() {
+		if HasRequired(ByName(n).Descriptor()) {
+			out = append(out, n)
+		}
+	}
+	return out
+}
